@@ -913,3 +913,47 @@ Proof.
   rewrite eval_history_independent, map_app. eexists. eexists. split; [reflexivity|].
   split; [reflexivity|apply map_length].
 Qed.
+
+(* ---- configuration layer: whatever is handed to the setters, the factor that reaches the
+   labyrinth rule lies in [1, 2]; a setter changes only the option it names ------------------- *)
+Lemma clampLab_range n : 1 <= clampLab Rops n <= 2.
+Proof.
+  unfold clampLab, two. Rnorm. destruct (Rltb n 1) eqn:E1; Rbool; [lra|].
+  destruct (Rltb 2 n) eqn:E2; Rbool; lra.
+Qed.
+Lemma clampLab_id n : 1 <= n <= 2 -> clampLab Rops n = n.
+Proof.
+  intros [H1 H2]. unfold clampLab, two. Rnorm. destruct (Rltb n 1) eqn:E1; Rbool; [lra|].
+  destruct (Rltb 2 n) eqn:E2; Rbool; [lra|reflexivity].
+Qed.
+
+Lemma applyOp_factor_range (c : config Rops) op : 1 <= c_factor c <= 2 -> 1 <= c_factor (applyOp Rops c op) <= 2.
+Proof. intros H. destruct op; simpl; [exact H|apply clampLab_range|exact H]. Qed.
+
+Lemma configure_factor_range (c0 : config Rops) ops : 1 <= c_factor c0 <= 2 -> 1 <= c_factor (configure Rops c0 ops) <= 2.
+Proof.
+  unfold configure. revert c0. induction ops as [|op ops IH]; intros c0 H; simpl; [exact H|].
+  apply IH, applyOp_factor_range, H.
+Qed.
+
+Lemma configure_app (O : Ops) (c0 : config O) ops1 ops2 :
+  configure O c0 (ops1 ++ ops2) = configure O (configure O c0 ops1) ops2.
+Proof. unfold configure. apply fold_left_app. Qed.
+
+(* the last call decides, the other two options are what they were before it *)
+Lemma configure_last (O : Ops) (c0 : config O) ops op :
+  let c := configure O c0 ops in
+  configure O c0 (ops ++ [op]) =
+    match op with
+    | OpRule r => mkCfg r (c_factor c) (c_post c)
+    | OpLab n => mkCfg (c_rule c) (clampLab O n) (c_post c)
+    | OpPost p => mkCfg (c_rule c) (c_factor c) p
+    end.
+Proof. intros c. rewrite configure_app. subst c. destruct op; reflexivity. Qed.
+
+Lemma config_labyrinth_le tiny (c0 : config Rops) ops fr col : 1 <= c_factor c0 <= 2 ->
+  length fr = length col -> Forall (fun f => 0 <= f) fr -> Forall (fun m => 0 < m) col -> sumR fr = 1 ->
+  labyrinthC Rops tiny (powR (c_factor (configure Rops c0 ops))) fr col <= wienerUpperC Rops tiny fr col.
+Proof.
+  intros H0. apply labyrinth_real_le_column. apply (configure_factor_range c0 ops H0).
+Qed.
